@@ -5,7 +5,7 @@
    both are run against gmars on every run (hook kinds 20 / 21 and whole programs,
    with goroutine counts before and after). *)
 From GM Require Import Base Text Token Lexer Scanner ExprSpec ExprEval ForExpand Parser Compile Sim
-     C05Lexer C05Expander C05Fuel.
+     C05Lexer C05Expander C05Fuel ScanProof ParserFuel EquFuel FrontEnd.
 Open Scope N_scope.
 
 (* the property at full strength, on the model: assembling never runs out of fuel (fuel is linear in
@@ -39,16 +39,45 @@ Proof. exact for_expand_clean. Qed.
 Print Assumptions C05_expander_clean_partial.
 
 (* proved, part 3: on every closed token stream (which is what the lexer delivers, part 1) a pass of the
-   expander ends within its 4*|tokens|+8 state functions - a measure argument over the 12 state functions -
-   provided the evaluation of FOR counts does not run out of ITS fuel (EQU graph walk and substitution) *)
+   expander ends within its 4*|tokens|+8 state functions - a measure argument over the 12 state functions;
+   the evaluation of the FOR count ends too (part 5) *)
 Theorem C05_expander_ends_partial :
-  forall toks symbols,
-    closed_stream toks -> (forall e, expand_and_evaluate e symbols <> None) ->
-    exists r, for_expand toks symbols = Some r.
-Proof. exact for_expand_ends. Qed.
+  forall toks symbols, closed_stream toks -> exists r, for_expand toks symbols = Some r.
+Proof. intros toks symbols C. apply for_expand_ends; [exact C|]. intros e. apply expand_and_evaluate_total. Qed.
 Print Assumptions C05_expander_ends_partial.
 
-(* missing: that the fuel of the EQU graph walk / substitution loops, of the symbol scanner and of the parser
-   always suffices (C05_full_statement).  A model run that exhausts its
-   fuel answers COutOfFuel, which the correspondence reports as a disagreement with gmars, so the gap is
-   covered by differential testing only. *)
+(* proved, part 4: the symbol scanner ends within its 3*|tokens|+6 state functions and the parser within its
+   4*|tokens|+10 state functions on every closed token stream (potential arguments over the 4 and the 13
+   state functions: every state function consumes a token or moves to a state of lower rank) *)
+Theorem C05_scanner_parser_end_partial :
+  forall toks, closed_stream toks -> scan_input toks <> None /\ parse toks <> None.
+Proof. intros toks C. split; [apply scan_input_total|apply parse_total]; exact C. Qed.
+Print Assumptions C05_scanner_parser_end_partial.
+
+(* proved, part 5: when the cycle check finds no cycle, the memoised expansion of the EQU values ends within
+   its fuel (the walk of the check bounds the recursion of the expansion), so the evaluation of a FOR count
+   always ends, for every symbol table *)
+Theorem C05_count_evaluation_ends_partial :
+  (forall values g, graph_has_cycle g = Some false -> (length g <= length values)%nat ->
+                    expand_expressions values g <> None) /\
+  (forall e syms, expand_and_evaluate e syms <> None).
+Proof. split; [exact expand_expressions_total|exact expand_and_evaluate_total]. Qed.
+Print Assumptions C05_count_evaluation_ends_partial.
+
+(* proved, part 6: the front end composed.  For EVERY input text and configuration the lexer ends, every
+   scan / expansion pass of the pass driver ends (at most 1000 passes), and the parser ends on what comes
+   out: assembling can run out of fuel only inside the compiler proper *)
+Theorem C05_front_end_ends_partial :
+  forall cfg inp,
+    (exists toks, lex_ascii inp = Some toks /\
+       exists r, pass_loop cfg (S max_for_passes) toks = Some r /\
+       match r with Some toks' => parse toks' <> None | None => True end) /\
+    (compile_warrior cfg inp = COutOfFuel -> exists lines meta, compile cfg lines meta = COutOfFuel).
+Proof. intros cfg inp. split; [apply front_end_ends|apply compile_warrior_fuel]. Qed.
+Print Assumptions C05_front_end_ends_partial.
+
+(* missing: that the fixpoint loop of expandExpression (compile.go) always ends within the fuel the model gives
+   it (number of symbols + 3 passes) once the cycle check has passed - the last step to C05_full_statement.
+   A model run that exhausts its fuel answers COutOfFuel, which the correspondence reports as a disagreement
+   with gmars, so that gap is covered by differential testing only.  Time, memory and the goroutine profile
+   are measured on the real code on every run (they are runtime facts the model cannot exhibit). *)
